@@ -11,7 +11,9 @@
 (*   - D_i * w_i is proportional to the screen-space edge function E_i,     *)
 (*   - visibility  <=>  the pixel centre is strictly inside the projected   *)
 (*     triangle,                                                            *)
-(*   - reciprocal depth and attribute agree exactly (cross-multiplied).     *)
+(*   - reciprocal depth and attribute agree exactly (cross-multiplied),     *)
+(*   - the facing used for culling (sign of det[x y w]) is the winding of   *)
+(*     the projected triangle.                                              *)
 (***************************************************************************)
 EXTENDS Pipeline, Integers
 
@@ -34,9 +36,15 @@ Tri == [v |-> <<ClipV(p1, ws[1]), ClipV(p2, ws[2]), ClipV(p3, ws[3])>>, a |-> <<
 Scr == <<p1, p2, p3>>
 ZOf(w) == (20 * 4) \div w
 
+\* the code's is_backface on the projected triangle: (s2 - s1) x (s3 - s1) > 0
+ScrCross == (p2[1] - p1[1]) * (p3[2] - p1[2]) - (p2[2] - p1[2]) * (p3[1] - p1[1])
+
 Agree ==
   ph = 1 =>
-  \A px \in 0..3, py \in 0..3 :
+  \* facing from the clip-space determinant = winding of the projected triangle
+  /\ Sgn(FaceDet(Tri)) = Sgn(ScrCross)
+  /\ Culled(1, Tri) = (ScrCross > 0) /\ Culled(2, Tri) = ~(ScrCross > 0)
+  /\ \A px \in 0..3, py \in 0..3 :
     LET d == DOf(Tri, RayOf(VP, px, py))
         q == R!Centre(1, px, py)
         E == <<R!Edge(Scr[2], Scr[3], q), R!Edge(Scr[3], Scr[1], q), R!Edge(Scr[1], Scr[2], q)>>
